@@ -237,7 +237,7 @@ def explore(ctx):
 
 def replay(record):
     imports()
-    if record.get('subcheck', '').startswith('model'):
+    if record.get('subcheck', '').startswith('model') or 'clusters' in (record.get('case') or {}):
         from . import c07_model
         return c07_model.replay(record)
     return core.replay_case(run_case, record)
